@@ -71,6 +71,8 @@ type FnEnc struct {
 	escOut   map[int]map[*ssa.Alloc]bool
 	curPos   token.Pos
 	parent   *FnEnc // inlining caller (its unescaped locals survive our havocs too)
+	lastRes  map[string]lastCall
+	callOrd  map[*ssa.CallCommon]int
 	locals   []*ssa.Alloc
 }
 
@@ -476,6 +478,11 @@ func (f *FnEnc) run(entryReach Term, args []Val, frees []Val, st *State) (res ru
 		f.enterBlock(b, entryReach, st)
 		f.execBlock(b)
 	}
+	if f.top && f.spec != nil {
+		for _, g := range f.spec.Gates {
+			f.checkGate(g)
+		}
+	}
 	// merge returns
 	if len(f.rets) == 0 {
 		return runResult{reach: tFalse, st: st}
@@ -671,6 +678,8 @@ type writeSet struct {
 	extern bool
 	names  map[string]bool
 	fresh  map[string]bool // written only inside objects the writer allocated itself
+	allBut map[string]bool // with all: components that are nevertheless kept ("everything except")
+	allPlain bool          // some source writes everything without exception
 }
 
 func (f *FnEnc) loopWrites(li *loopInfo) writeSet {
@@ -743,6 +752,7 @@ func (f *FnEnc) finishEdge(from *ssa.BasicBlock, to *ssa.BasicBlock, cond Term) 
 
 func (f *FnEnc) execBlock(b *ssa.BasicBlock) {
 	e := f.e
+	f.inReach[b.Index] = f.reach
 	for _, ins := range b.Instrs {
 		if _, ok := ins.(*ssa.Phi); ok {
 			continue
@@ -1027,6 +1037,29 @@ func (f *FnEnc) noteEscapesInto(ins ssa.Instruction, esc map[*ssa.Alloc]bool) {
 	case *ssa.Store:
 		mark(x.Val) // the address itself is stored somewhere
 		return
+	case *ssa.MakeClosure:
+		// a closure that is only deferred or called right here does not leak what it captures
+		local := true
+		if refs := x.Referrers(); refs != nil {
+			for _, r := range *refs {
+				switch u := r.(type) {
+				case *ssa.Defer:
+					if u.Call.Value != ssa.Value(x) {
+						local = false
+					}
+				case *ssa.Call:
+					if u.Call.Value != ssa.Value(x) {
+						local = false
+					}
+				case *ssa.DebugRef:
+				default:
+					local = false
+				}
+			}
+		}
+		if local {
+			return
+		}
 	case *ssa.Call:
 		// a callee with a pure contract neither writes through nor retains its arguments
 		var spec *FuncSpec
@@ -1047,4 +1080,268 @@ func (f *FnEnc) noteEscapesInto(ins ssa.Instruction, esc map[*ssa.Alloc]bool) {
 			mark(*op)
 		}
 	}
+}
+
+type lastCall struct {
+	blk *ssa.BasicBlock
+	res Val
+	sig *types.Signature
+	str []Term // string content of []byte results at call time
+}
+
+func calleeKey(c *ssa.CallCommon) string {
+	if c.IsInvoke() {
+		return strings.ReplaceAll(c.Method.FullName(), modPath+"/", "")
+	}
+	if callee := c.StaticCallee(); callee != nil {
+		return fnDisplayName(callee)
+	}
+	return ""
+}
+
+// recordCall remembers the most recent result of each callee (for lastresult()/laststr() in
+// specifications: "the value the code recomputed").
+func (f *FnEnc) recordCall(c *ssa.CallCommon, res Val) {
+	key := calleeKey(c)
+	if key == "" || res == nil {
+		return
+	}
+	if f.lastRes == nil {
+		f.lastRes = map[string]lastCall{}
+	}
+	lc := lastCall{blk: f.blk, res: res, sig: c.Signature()}
+	defer func() {
+		// also under "key#k": the k-th call site of this callee in the function (source order)
+		if f.callOrd == nil {
+			f.callOrd = map[*ssa.CallCommon]int{}
+			// call sites numbered in source order (block numbering does not follow the source)
+			var sites []*ssa.Call
+			for _, b := range f.fn.Blocks {
+				for _, ins := range b.Instrs {
+					if call, ok := ins.(*ssa.Call); ok && calleeKey(&call.Call) != "" {
+						sites = append(sites, call)
+					}
+				}
+			}
+			sort.SliceStable(sites, func(i, j int) bool { return sites[i].Pos() < sites[j].Pos() })
+			cnt := map[string]int{}
+			for _, call := range sites {
+				k := calleeKey(&call.Call)
+				cnt[k]++
+				f.callOrd[&call.Call] = cnt[k]
+			}
+		}
+		if n, ok := f.callOrd[c]; ok {
+			f.lastRes[fmt.Sprintf("%s#%d", key, n)] = f.lastRes[key]
+		}
+	}()
+	// content of byte-slice results as of now
+	rs := c.Signature().Results()
+	vals := []Val{res}
+	if tv, ok := res.(TupleV); ok {
+		vals = tv
+	}
+	for i, v := range vals {
+		var t Term
+		if sv, ok := v.(SliceV); ok && i < rs.Len() {
+			if sl, ok := rs.At(i).Type().Underlying().(*types.Slice); ok {
+				if b := basicOf(sl.Elem()); b != nil && b.Kind() == types.Uint8 {
+					func() {
+						defer func() { recover() }()
+						es, _ := f.e.scalarSort(sl.Elem())
+						cp := f.e.cellComp(sl.Elem(), leaf{"", es, sl.Elem()})
+						fn := "|str-of " + typeKey(sl.Elem()) + "|"
+						f.e.declFun(fn, []Sort{cp.Sort, SInt, SInt, SInt}, SStr)
+						t = f.e.define("laststr", app(SStr, fn, f.e.lookup(f.st, cp), sv.Base, sv.Off, sv.Len))
+					}()
+				}
+			}
+		}
+		lc.str = append(lc.str, t)
+	}
+	f.lastRes[key] = lc
+}
+
+// errorMessageOf: the constant message of an error value built by errors.New / Errorf / New.
+func errorMessageOf(v ssa.Value) (string, *ssa.BasicBlock, bool) {
+	for i := 0; i < 4; i++ {
+		switch x := v.(type) {
+		case *ssa.MakeInterface:
+			v = x.X
+			continue
+		case *ssa.ChangeInterface:
+			v = x.X
+			continue
+		case *ssa.Call:
+			callee := x.Call.StaticCallee()
+			if callee == nil || len(x.Call.Args) == 0 {
+				return "", nil, false
+			}
+			switch callee.String() {
+			case "errors.New", "fmt.Errorf", "github.com/pkg/errors.New", "github.com/pkg/errors.Errorf":
+				if k, ok := x.Call.Args[0].(*ssa.Const); ok && k.Value != nil {
+					return constString(k), x.Block(), true
+				}
+			}
+			return "", nil, false
+		}
+		break
+	}
+	return "", nil, false
+}
+
+func isNilConst(v ssa.Value) bool {
+	k, ok := v.(*ssa.Const)
+	return ok && k.Value == nil
+}
+
+// checkGate generates the two obligations of a gate directive.
+func (f *FnEnc) checkGate(g *Gate) {
+	e := f.e
+	name := "gate/" + strings.ReplaceAll(g.Msg, " ", "-")
+	fail := func(why string) {
+		o := &Obligation{Name: f.oblName(name, "exists"), Kind: "gate", Fn: fnDisplayName(f.fn), Reach: tTrue, Goal: tFalse, Props: g.Props, Tainted: why, Src: g.Cond.Src}
+		if len(o.Props) == 0 {
+			o.Props = e.curProps
+		}
+		e.obls = append(e.obls, o)
+	}
+	// 1. the error return
+	var B *ssa.BasicBlock
+	var success []*ssa.Return
+	for _, b := range f.fn.Blocks {
+		ret, ok := b.Instrs[len(b.Instrs)-1].(*ssa.Return)
+		if !ok || len(ret.Results) == 0 {
+			continue
+		}
+		last := ret.Results[len(ret.Results)-1]
+		if !isErrorType(last.Type()) {
+			continue
+		}
+		if isNilConst(last) {
+			success = append(success, ret)
+			continue
+		}
+		if msg, blk, ok := errorMessageOf(last); ok && strings.HasPrefix(msg, g.Msg) {
+			if B != nil && B != blk {
+				fail("more than one error return with message " + g.Msg)
+				return
+			}
+			B = blk
+		}
+	}
+	if B == nil {
+		fail("no error return with message \"" + g.Msg + "\" (the check was removed or its message changed)")
+		return
+	}
+	D := B.Idom()
+	if D == nil {
+		fail("error return is not guarded")
+		return
+	}
+	evalAt := D
+	// a conjunctive test (a && b) compiles into a chain of blocks sharing the same "continue"
+	// successor: the gate starts at the top of that chain
+	for {
+		if len(D.Preds) != 1 {
+			break
+		}
+		P := D.Preds[0]
+		pif, ok1 := P.Instrs[len(P.Instrs)-1].(*ssa.If)
+		_, ok2 := D.Instrs[len(D.Instrs)-1].(*ssa.If)
+		if !ok1 || !ok2 || pif == nil || len(P.Succs) != 2 || len(D.Succs) != 2 {
+			break
+		}
+		otherP := P.Succs[0]
+		if otherP == D {
+			otherP = P.Succs[1]
+		}
+		shared := false
+		for _, sD := range D.Succs {
+			if sD == otherP {
+				shared = true
+			}
+		}
+		if !shared || !P.Dominates(D) {
+			break
+		}
+		D = P
+	}
+	inB, okB := f.inReach[B.Index]
+	outD, okD := f.outReach[D.Index]
+	if !okB || !okD {
+		fail("gate blocks were not encoded")
+		return
+	}
+	// 2. every successful return is dominated by the guarding test
+	for _, ret := range success {
+		if !D.Dominates(ret.Block()) {
+			if !cfgReaches(D, ret.Block()) {
+				continue // a successful return on another path (e.g. the early return for empty blocks)
+			}
+			o := &Obligation{Name: f.oblName(name, "guards-every-success"), Kind: "gate", Fn: fnDisplayName(f.fn), Reach: tTrue, Goal: tFalse, Pos: ret.Pos(), Props: g.Props,
+				Verdict: "sat", Model: "a successful return (" + e.posStr(ret.Pos()) + ") is reachable without passing the check that guards error \"" + g.Msg + "\"", Src: g.Cond.Src}
+			if len(o.Props) == 0 {
+				o.Props = e.curProps
+			}
+			e.obls = append(e.obls, o)
+			return
+		}
+	}
+	// 3. whenever the stated condition holds at the test, the error return is taken
+	saveBlk, saveReach, saveSt, saveTaint := f.blk, f.reach, f.st, f.taint
+	f.blk, f.reach, f.st, f.taint = evalAt, outD, f.outState[evalAt.Index], f.outTaint[evalAt.Index]
+	ctx := f.specCtx(f.st, evalAt, nil)
+	ctx.atReturn = true
+	ctx.gateTop, ctx.gateB = D, B
+	cond := f.evalClauseSafe(ctx, g.Cond)
+	// evaluating the rest of the test may itself abort (nil dereference in a later operand):
+	// that is not a successful return either
+	aborted := tFalse
+	for _, R := range f.fn.Blocks {
+		if R == D || !D.Dominates(R) || !cfgReaches(R, B) || R == B {
+			continue
+		}
+		in, ok1 := f.inReach[R.Index]
+		out, ok2 := f.outReach[R.Index]
+		if ok1 && ok2 && in.S != out.S {
+			aborted = tOr(aborted, tAnd(in, tNot(out)))
+		}
+	}
+	o := f.addObl(name, "rejects", tImp(cond, tOr(inB, aborted)), B.Instrs[0].Pos(), g.Props, g.Cond.Src)
+	o.Kind = "gate"
+	f.blk, f.reach, f.st, f.taint = saveBlk, saveReach, saveSt, saveTaint
+}
+
+// calleeSig finds the signature of a callee (by display key) called somewhere in this function.
+func (f *FnEnc) calleeSig(key string) *types.Signature {
+	for _, b := range f.fn.Blocks {
+		for _, ins := range b.Instrs {
+			if call, ok := ins.(*ssa.Call); ok && calleeKey(&call.Call) == key {
+				return call.Call.Signature()
+			}
+		}
+	}
+	return nil
+}
+
+func cfgReaches(from, to *ssa.BasicBlock) bool {
+	seen := map[*ssa.BasicBlock]bool{}
+	var dfs func(b *ssa.BasicBlock) bool
+	dfs = func(b *ssa.BasicBlock) bool {
+		if b == to {
+			return true
+		}
+		if seen[b] {
+			return false
+		}
+		seen[b] = true
+		for _, s := range b.Succs {
+			if dfs(s) {
+				return true
+			}
+		}
+		return false
+	}
+	return dfs(from)
 }
